@@ -82,7 +82,12 @@ def make_serializable(x):
         The input variable converted into a serializable format.
     """
     if isinstance(x, (ndarray, numpy_ndarray)):
-        return {"type": "jax.numpy", "data": x.tolist()}
+        return {
+            "type": "jax.numpy",
+            "data": x.tolist(),
+            "dtype": str(x.dtype),
+            "shape": list(x.shape),
+        }
     if isinstance(x, integer):
         return int(x)
     if isinstance(x, floating):
@@ -121,7 +126,10 @@ def deserialize(serializable_x):
     if isinstance(serializable_x, dict):
         data_type = serializable_x["type"]
         if data_type == "jax.numpy":
-            return array(serializable_x["data"])
+            x = array(serializable_x["data"], dtype=serializable_x.get("dtype", None))
+            if "shape" in serializable_x:
+                x = x.reshape(serializable_x["shape"])
+            return x
         elif data_type == "slice":
             dat = [_str_to_None(v) for v in serializable_x["data"]]
             return slice(*dat)
